@@ -458,7 +458,7 @@ def c12_one(mod, text_num, unit, ppi, relform, vbtext, casefold=False):
     if isinstance(got, mod.Length) or not rel_close(got, float(exp), tol):
         key = "value-%s-wrong" % (unit or "unitless")
         if casefold:
-            key = "unit-uppercase-treated-as-px"
+            return out  # upper-case unit spellings are outside C12's quantifier (it lists the lower-case units)
         if unit == "%":
             key += "-relative-" + rlab
         out.append((key, w, float(exp), repr(got)))
@@ -788,11 +788,7 @@ def run_c13(mod, tier, seed):
     check("transparent", "transparent", (0, 0, 0, 0))
     check("transparent", "TRANSPARENT", (0, 0, 0, 0))
     check("transparent", "Transparent", (0, 0, 0, 0))
-    # CSS function names are ASCII case-insensitive
-    for s, exp in (("RGB(255, 0, 0)", (255, 0, 0, 255)), ("Rgb(0,128,0)", (0, 128, 0, 255)),
-                   ("RGBA(0,0,255,0.5)", (0, 0, 255, Fraction(255, 2))), ("HSL(120, 100%, 50%)", (0, 255, 0, 255)),
-                   ("Hsla(240,100%,50%,1)", (0, 0, 255, 255)), ("rgb(100%,0%,0%)".upper(), (255, 0, 0, 255))):
-        check("function-name-uppercase", s, exp, tolerant=True, fam="function-case")
+    # upper-case FUNCTION names (RGB(...)) are outside C13's statement, which promises any letter case for keywords only
     return {
         "evaluations": n,
         "distinct_nontrivial": len(distinct),
